@@ -467,6 +467,34 @@ def run(rep, tier, cases, report, nontrivial, samples):
                             (tag, bad + 1, want[bad][:40] if 0 <= bad < len(want) else b"-", got[bad][:40] if 0 <= bad < len(got) else b"-"))
         report(pseudo, devs, {k: v for k, v in o.items() if k != "stdout_hex"}, "every literal as judged alone (the rule is context-free)")
         nontrivial.add(("arranged", name))
+    # two modules whose OUT-of-range literals stand at the SAME place of their files (same line, same columns, same
+    # spelling length): "a value outside the range of its type ALWAYS raises L1142" -- once per literal, in whichever
+    # module it stands, whatever another module holds at the same offsets.  Both file orders.
+    over = [("u8", "300", "256"), ("i8", "128", "200"), ("u16", "65536", "70000"), ("i16", "40000", "32768")]
+    liba = "".join("const AA%d: %s = %s;\n" % (k, t, x) for k, (t, x, y) in enumerate(over)) + "\npub fn lib_total() -> u8\n{\n\treturn: AA0\n}\n"
+    mainb = ("".join("const BB%d: %s = %s;\n" % (k, t, y) for k, (t, x, y) in enumerate(over))
+             + '\nimport "liba.pn";\n\nfn main() -> u8\n{\n\tvar r: u8 = BB0 + lib_total();\n\tprint!(r, "\\n");\n\treturn: 0\n}\n')
+    for order_name, mods in (("lib-first", [["liba.pn", liba], ["mainb.pn", mainb]]), ("main-first", [["mainb.pn", mainb], ["liba.pn", liba]])):
+        o = run_raw([mods], "over2", timeout=120)[0]
+        replayed += 2 * len(over)
+        name = "two-modules-out-of-range %s" % order_name
+        pseudo = {"fam": "arranged", "lit": list(name.encode()), "what": name}
+        devs = []
+        if o.get("panic"):
+            devs.append("crash two-modules-out-of-range: %s" % o["panic"][:60])
+        elif not o.get("ok"):
+            devs.append("rejected-valid two-modules-out-of-range: E%s" % first_code(o))
+        else:
+            for fname, decl in (("liba.pn", "AA"), ("mainb.pn", "BB")):
+                lines = sorted(x[1] for x in o.get("lints", []) if x[0] == 1142 and str(x[2]).endswith(fname))
+                # the declarations stand on lines 1..len(over) of both files
+                missing = [k + 1 for k in range(len(over)) if (k + 1) not in lines]
+                if missing:
+                    devs.append("lint two-modules-out-of-range: no L1142 for the out-of-range literal(s) on line(s) %s of %s (%s)" %
+                                (missing, fname, order_name))
+        report(pseudo, devs, {k: v for k, v in o.items() if k != "stdout_hex"}, "one L1142 per out-of-range literal, in each of the two modules")
+        nontrivial.add(("arranged", name))
+        names.append(name)
     log("[replay] arranged programs: %s" % "; ".join(names))
     cov["arranged_programs"] = names
     return replayed, cov
